@@ -494,6 +494,11 @@ extern char *action_array;
 extern int action_size;
 extern int defs1_offset, prolog_offset, action_offset, action_index;
 
+/* where finish_rule() put the current rule's M4_HOOK_SET_RULE_SETUP in
+ * action_array
+ */
+extern int rule_setup_index;
+
 
 /* Variables for stack of states having only one out-transition:
  * onestate - state number
